@@ -29,7 +29,7 @@ import sys, os
 sys.path.insert(0, os.path.dirname(__file__))
 from x_c07_common import *
 
-SHRINKERS = {"wwWordSize": 1, "wwOctetSize": 1, "memNonZeroSize": 1}   # result <= argument #i
+SHRINKERS = {"wwWordSize": 1, "wwOctetSize": 1, "memNonZeroSize": 1}   # result <= argument #i (wwOctetSize: * sizeof(word))
 ALLOCS = ("blobCreate", "blobCreate2")
 
 # how the parameters of f_deep are bound to the object a function works on
@@ -384,6 +384,8 @@ class UseFn:
             if cn in SHRINKERS:
                 self.visit_calls_only(rhs)
                 b = self.try_size(s["inner"][1 + SHRINKERS[cn]])
+                if b is not None and cn == "wwOctetSize":
+                    b = fold(("bin", "*", b, self.sz("word")))     # octets of n words
                 if b is not None:
                     cur = self.sizes.get(nm, ("var", nm) if nm in self.intparams else None)
                     if (self.cond_depth or self.loop_depth) and b != cur:
